@@ -11,9 +11,12 @@ import (
 	"encoding/hex"
 	"errors"
 	"fmt"
+	"io"
+	"io/fs"
 	"os"
 	"sync"
 	"sync/atomic"
+	"syscall"
 	"time"
 
 	"git.metabarcoding.org/obitools/obitools4/obitools4/pkg/obiformats"
@@ -32,6 +35,7 @@ type c18case struct {
 	SeqLen     int    `json:"seqlen"`      // 0: tiny sequences; else every sequence has this length
 	FailAt     int    `json:"fail_at"`     // the device accepts this many bytes, then every write fails (-1: never)
 	CloseFails bool   `json:"close_fails"` // Close of the device returns an error
+	ErrKind    string `json:"err_kind,omitempty"` // identity of the injected error: "" (a plain error) | closed | eof | shortwrite | closedpipe | epipe
 	Bytes      []int  `json:"bytes"`       // if set: batch i holds one record sized so that its formatted chunk has exactly bytes[i] bytes (0: empty batch)
 	CutAt      int    `json:"cut_at"`      // > 0: the first write crossing this absolute offset stops there and reports NO error (once)
 	ZeroErr    bool   `json:"zero_err"`    // a zero-length write returns an error
@@ -75,6 +79,7 @@ type c18sink struct {
 	closes     int
 	failAt     int
 	closeFails bool
+	errKind    string // identity of the error the device returns (see c18errOf)
 	done       chan struct{}
 	cutAt      int
 	cutDone    bool
@@ -113,7 +118,29 @@ func (s *c18sink) Write(p []byte) (int, error) {
 	}
 	s.buf = append(s.buf, p[:n]...)
 	s.failed = true
-	return n, errC18Full
+	return n, c18errOf(s.errKind, "write", errC18Full)
+}
+
+// c18errOf: the error value a failing device returns. The writers must treat EVERY non-nil error of Write / Close as a
+// failure, whatever its identity: os.ErrClosed (the stream was closed by somebody else), io.EOF, io.ErrShortWrite,
+// io.ErrClosedPipe, EPIPE - wrapped in a *fs.PathError the way os.File reports them.
+func c18errOf(kind, op string, dflt error) error {
+	var e error
+	switch kind {
+	case "closed":
+		e = os.ErrClosed
+	case "eof":
+		e = io.EOF
+	case "shortwrite":
+		e = io.ErrShortWrite
+	case "closedpipe":
+		e = io.ErrClosedPipe
+	case "epipe":
+		e = syscall.EPIPE
+	default:
+		return dflt
+	}
+	return &fs.PathError{Op: op, Path: "/injected/device", Err: e}
 }
 
 // Sync would fail: nothing on the output path calls it (counted)
@@ -134,7 +161,7 @@ func (s *c18sink) Close() error {
 	}
 	if s.closeFails {
 		s.failed = true
-		return errC18Close
+		return c18errOf(s.errKind, "close", errC18Close)
 	}
 	return nil
 }
@@ -337,7 +364,7 @@ func c18run(c c18case) (o c18obs) {
 		o.Header = hex.EncodeToString(c18format("csv", c18batch("csv", 0, 0, 0, 0)))
 	}
 
-	sink := &c18sink{done: make(chan struct{}), failAt: c.FailAt, closeFails: c.CloseFails, cutAt: c.CutAt, zeroErr: c.ZeroErr}
+	sink := &c18sink{done: make(chan struct{}), failAt: c.FailAt, closeFails: c.CloseFails, cutAt: c.CutAt, zeroErr: c.ZeroErr, errKind: c.ErrKind}
 	c18mu.Lock()
 	c18cur, c18fatal, c18snapGot, c18snapCloses = sink, false, nil, 0
 	c18mu.Unlock()
@@ -476,7 +503,7 @@ func (l c18slowlog) Write(p []byte) (int, error) {
 // Observed: did any call return an error; what the device holds; how often it was closed.
 func c18wfile(c c18case) (o c18obs) {
 	o.Kind = "ok"
-	sink := &c18sink{done: make(chan struct{}), failAt: c.FailAt, closeFails: c.CloseFails, cutAt: c.CutAt, zeroErr: c.ZeroErr}
+	sink := &c18sink{done: make(chan struct{}), failAt: c.FailAt, closeFails: c.CloseFails, cutAt: c.CutAt, zeroErr: c.ZeroErr, errKind: c.ErrKind}
 	var wf *obiutils.Wfile
 	var err error
 	if c.Path != "" {
